@@ -162,6 +162,16 @@ func init() {
 			// Concrete(s string) string: force a string to a concrete value (forks)
 			return fr.i.conc(a[0])
 		},
+		"And": func(fr *frame, a []value) value {
+			x, _ := fr.i.termOf(a[0])
+			y, _ := fr.i.termOf(a[1])
+			return mkSym(fr.i.px.tb.and(x, y), types.Bool)
+		},
+		"Or": func(fr *frame, a []value) value {
+			x, _ := fr.i.termOf(a[0])
+			y, _ := fr.i.termOf(a[1])
+			return mkSym(fr.i.px.tb.or(x, y), types.Bool)
+		},
 		"SetFS": func(fr *frame, a []value) value {
 			fr.i.px.userdata["fs"] = a[0]
 			return nil
